@@ -127,7 +127,7 @@ def items(tier):
                "workplaces": [{"name": "WP0", "cap": cap, "targets": [0, 1], "facilities": [{"name": "F0", "skills": dict(full)}, {"name": "F1", "skills": dict(full)}]}],
                "teams": [{"name": "TM0", "targets": [0, 1], "workers": [{"name": "W%d" % i, "skills": dict(full), "fskills": {"F0": 1.0, "F1": 1.0}} for i in range(2)]}]}
         out.append((big, {"rule": "TSLACK", "max_time": 14}))
-    for sp in list(F.fac_specs(tier)) + competing_specs(tier) + F.same_name_workplace_specs() + F.waiting_assembly_specs() + F.ff_held_component_specs() + F.late_placement_specs() + F.sequential_facility_specs():
+    for sp in list(F.fac_specs(tier)) + competing_specs(tier) + F.same_name_workplace_specs() + F.waiting_assembly_specs() + F.ff_held_component_specs() + F.late_placement_specs() + F.sequential_facility_specs() + F.auto_cure_specs():
         out.append((sp, {"rule": "TSLACK", "max_time": F.seq_bound(sp) + 8}))
     return out
 
@@ -139,6 +139,10 @@ def restart_items(tier):
         for k in (1, 2):
             for flags in ((False, False), (True, False), (False, True)):
                 out.append((sp, dict(o, resume_from=k, restart_flags=list(flags))))
+    # a forward run that follows one or two backward runs on the same object (what the backward run did to the workplace links must be undone, caches included)
+    for sp, o in [it for it in items(tier) if any(wp.get("inputs") for wp in it[0].get("workplaces", []))][:: (3 if tier == "quick" else 1)]:
+        for nb in (1, 2):
+            out.append((sp, dict(o, presim_back=nb)))
     # stopped at step k, written to JSON, read into a new project and continued there (placement state has to survive the round trip)
     for sp, o in items(tier)[:: (4 if tier == "quick" else 2)]:
         for k in (1, 2, 3):
